@@ -179,6 +179,11 @@ func Native(ops []Op, partial bool) func(context.Context, match.Bindings, core.S
 				return fail(errors.New("RuntimeError: timeout (native)"))
 			}
 		}
+		if len(exe.Emitted) == 0 && len(ops)%2 == 0 {
+			// (every other native action that emits nothing returns an Execution it did not make with NewExecution:
+			// Execution is an exported struct)
+			return &core.Execution{Bs: cur}, nil
+		}
 		exe.Bs = cur
 		return exe, nil
 	}
